@@ -633,7 +633,7 @@ func c14Exhaustion(c *Ctx) {
 				}
 			case *ssa.Call:
 				// !sc.Scan() → return ErrNoTargets
-				if callName(&x.Call) == "(*lib.peekingScanner).Scan" {
+				if w := findScanWrap(c); w != nil && w.scan != nil && x.Call.StaticCallee() == w.scan {
 					if ifi := falseImpliesIf(x); ifi != nil {
 						set := exploreBlock(ifi.Block().Succs[1], nil)
 						for j := range set {
@@ -655,7 +655,7 @@ func c14Exhaustion(c *Ctx) {
 // ------------------------------------------------------------------ C15
 
 var notGoroutineSafe = []struct{ pkg, name string }{
-	{"bufio", "Reader"}, {"bufio", "Scanner"}, {"bufio", "Writer"}, {"bytes", "Buffer"}, {"lib", "peekingScanner"},
+	{"bufio", "Reader"}, {"bufio", "Scanner"}, {"bufio", "Writer"}, {"bytes", "Buffer"},
 	{"encoding/csv", "Reader"}, {"math/rand", "Rand"}, {"encoding/gob", "Decoder"},
 }
 
@@ -665,9 +665,24 @@ func isUnsafeType(t types.Type) (string, bool) {
 			return u.pkg + "." + u.name, true
 		}
 	}
-	// struct embedding an unsafe type
+	// a repository struct holding an unsafe type (the lookahead scanner wrapper)
 	if p, ok := t.Underlying().(*types.Pointer); ok {
 		t = p.Elem()
+	}
+	if n, ok := t.(*types.Named); ok && n.Obj().Pkg() != nil && strings.HasPrefix(n.Obj().Pkg().Path(), modPath) {
+		if st, ok := n.Underlying().(*types.Struct); ok {
+			for k := 0; k < st.NumFields(); k++ {
+				ft := st.Field(k).Type()
+				if p, isP := ft.(*types.Pointer); isP {
+					ft = p.Elem()
+				}
+				for _, u := range notGoroutineSafe {
+					if isNamedType(ft, u.pkg, u.name) {
+						return n.Obj().Name() + " (holds " + u.pkg + "." + u.name + ")", true
+					}
+				}
+			}
+		}
 	}
 	return "", false
 }
@@ -728,7 +743,7 @@ func runC15(c *Ctx) {
 			case ssa.CallInstruction:
 				cc := x.Common()
 				n := callName(cc)
-				if strings.HasPrefix(n, "sync/atomic.") && len(cc.Args) > 0 {
+				if atomicKind(cc) != "" && len(cc.Args) > 0 {
 					if fv := rootedAtFreeVar(cc.Args[0]); fv != nil {
 						atomicCells[fv]++
 					}
@@ -857,11 +872,11 @@ func runC15(c *Ctx) {
 			var ops []*ssa.Call
 			// the cursor may live in a helper type (rr.next()): count over the closure and what it calls
 			eachInstrRegion(cl, func(i ssa.Instruction) {
-				if call, ok := i.(*ssa.Call); ok && strings.HasPrefix(callName(&call.Call), "sync/atomic.") {
+				if call, ok := isAtomicCall(i); ok {
 					ops = append(ops, call)
 				}
 			})
-			ok := len(ops) == 1 && strings.Contains(callName(&ops[0].Call), "Add")
+			ok := len(ops) == 1 && atomicKind(&ops[0].Call) == "add"
 			why := fmt.Sprintf("%d atomic operations on the counter per call (load/compare/store sequences are not atomic as a whole): want exactly one atomic Add", len(ops))
 			if ok {
 				args := ops[0].Call.Args
@@ -942,11 +957,11 @@ func c15ResolverRotation(c *Ctx) {
 	c.Saw("function " + shortFn(fn))
 	var ops []*ssa.Call
 	eachInstr(fn, func(i ssa.Instruction) {
-		if call, ok := i.(*ssa.Call); ok && strings.HasPrefix(callName(&call.Call), "sync/atomic.") {
+		if call, ok := isAtomicCall(i); ok {
 			ops = append(ops, call)
 		}
 	})
-	ok := len(ops) == 1 && strings.HasPrefix(callName(&ops[0].Call), "sync/atomic.Add")
+	ok := len(ops) == 1 && atomicKind(&ops[0].Call) == "add"
 	if ok {
 		ok = false
 		eachInstr(fn, func(i ssa.Instruction) {
@@ -1010,21 +1025,105 @@ func onlyConvertedToString(i ssa.Instruction) bool {
 	return true
 }
 
+// scanWrap is the repository's one-line-lookahead wrapper around *bufio.Scanner (today:
+// peekingScanner), found by structure: the struct in lib holding a *bufio.Scanner, its string
+// field (the lookahead), and its methods classified by which scanner calls they make.
+type scanWrap struct {
+	named            *types.Named
+	scan, text, peek *ssa.Function
+	peeked           int
+}
+
+func findScanWrap(c *Ctx) *scanWrap {
+	pk := c.P.Pkg("lib")
+	if pk == nil {
+		return nil
+	}
+	scope := pk.Types.Scope()
+	names := scope.Names()
+	sort.Strings(names)
+	for _, n := range names {
+		tn, ok := scope.Lookup(n).(*types.TypeName)
+		if !ok || tn.IsAlias() {
+			continue
+		}
+		named, ok := tn.Type().(*types.Named)
+		if !ok {
+			continue
+		}
+		st, ok := named.Underlying().(*types.Struct)
+		if !ok {
+			continue
+		}
+		hasScanner, strField, nStr := false, -1, 0
+		for k := 0; k < st.NumFields(); k++ {
+			ft := st.Field(k).Type()
+			if p, isP := ft.(*types.Pointer); isP && isNamedType(p.Elem(), "bufio", "Scanner") {
+				hasScanner = true
+			}
+			if b, isB := ft.Underlying().(*types.Basic); isB && b.Kind() == types.String {
+				strField = k
+				nStr++
+			}
+		}
+		if !hasScanner || nStr != 1 {
+			continue
+		}
+		w := &scanWrap{named: named, peeked: strField}
+		for k := 0; k < named.NumMethods(); k++ {
+			f := c.P.SSA.FuncValue(named.Method(k))
+			if f == nil || len(f.Blocks) == 0 {
+				continue
+			}
+			nScan, nText := len(callsNamed(f, "(*bufio.Scanner).Scan")), len(callsNamed(f, "(*bufio.Scanner).Text"))
+			res := f.Signature.Results()
+			if res.Len() != 1 {
+				continue
+			}
+			b, isB := res.At(0).Type().Underlying().(*types.Basic)
+			switch {
+			case isB && b.Kind() == types.Bool && nScan > 0 && nText == 0:
+				w.scan = f
+			case isB && b.Kind() == types.String && nText > 0 && nScan == 0:
+				w.text = f
+			case isB && b.Kind() == types.String && nText > 0 && nScan > 0:
+				w.peek = f
+			}
+		}
+		return w
+	}
+	return nil
+}
+
 // c14PeekingScanner: the one-line lookahead never loses or repeats a line.
 func c14PeekingScanner(c *Ctx) {
 	const rule = "peekingScanner: Text() returns the peeked line exactly once (it clears the lookahead on that path) and otherwise the scanner's current line; Scan() advances the underlying scanner only when nothing is peeked; Peek() records what it read"
 	key := "lookahead:lib.peekingScanner"
-	text := c.P.Func("lib", "peekingScanner.Text")
-	scan := c.P.Func("lib", "peekingScanner.Scan")
-	peek := c.P.Func("lib", "peekingScanner.Peek")
-	if text == nil || scan == nil || peek == nil {
-		c.Undecided(key, rule, "peekingScanner methods not found")
+	w := findScanWrap(c)
+	if w == nil || w.text == nil || w.scan == nil || w.peek == nil {
+		c.Undecided(key, rule, "no lookahead wrapper around *bufio.Scanner with Scan/Text/Peek-like methods found in lib")
 		return
+	}
+	text, scan, peek := w.text, w.scan, w.peek
+	isPeekedAddr := func(fa *ssa.FieldAddr) bool {
+		t := fa.X.Type()
+		if p, ok := t.(*types.Pointer); ok {
+			t = p.Elem()
+		}
+		n, ok := t.(*types.Named)
+		return ok && n.Obj() == w.named.Obj() && fa.Field == w.peeked
 	}
 	for _, f := range []*ssa.Function{text, scan, peek} {
 		c.Saw("function " + shortFn(f))
 	}
-	isPeeked := func(v ssa.Value) bool { return strings.HasSuffix(describeVal(v), ".peeked") }
+	isPeeked := func(v ssa.Value) bool {
+		ld, ok := isLoad(v)
+		if !ok {
+			return false
+		}
+		fa, ok := ld.X.(*ssa.FieldAddr)
+		return ok && isPeekedAddr(fa)
+	}
 	// emptyTest returns the blocks entered when the lookahead is empty / non-empty.
 	emptyTest := func(fn *ssa.Function) (onEmpty, onPeeked *ssa.BasicBlock) {
 		eachInstr(fn, func(i ssa.Instruction) {
@@ -1071,7 +1170,7 @@ func c14PeekingScanner(c *Ctx) {
 		cleared := false
 		set := exploreBlock(onPeeked, func(i ssa.Instruction) bool {
 			if st, isSt := i.(*ssa.Store); isSt {
-				if fa, isFA := st.Addr.(*ssa.FieldAddr); isFA && fieldName(fa.X.Type(), fa.Field) == "peeked" {
+				if fa, isFA := st.Addr.(*ssa.FieldAddr); isFA && isPeekedAddr(fa) {
 					if s, isS := constString(st.Val); isS && s == "" {
 						cleared = true
 						return true
@@ -1114,7 +1213,7 @@ func c14PeekingScanner(c *Ctx) {
 		stored := false
 		eachInstr(peek, func(i ssa.Instruction) {
 			if st, isSt := i.(*ssa.Store); isSt {
-				if fa, isFA := st.Addr.(*ssa.FieldAddr); isFA && fieldName(fa.X.Type(), fa.Field) == "peeked" {
+				if fa, isFA := st.Addr.(*ssa.FieldAddr); isFA && isPeekedAddr(fa) {
 					if call, isCall := st.Val.(*ssa.Call); isCall && callName(&call.Call) == "(*bufio.Scanner).Text" {
 						stored = true
 					}
